@@ -7,9 +7,10 @@ Inputs are what the Go code reads from the `*http.Request` it receives:
   method, `r.URL.EscapedPath()`, `r.URL.Query()` (decoded pairs), `r.Host`, `r.Header`, body.
 `net/http` request parsing and `url.ParseQuery` are *not* modelled (they are below the model).
 
-Switches (`Fix`): the model mirrors the code as it is (`Fix.asIs`); `collapseSpaces` is the
-behaviour after fixes/C29-collapse-header-spaces.patch; `sortDecoded` is an ideal-only variant
-(canonical query ordered like the Go SDK orders it) for which no patch is proposed.
+Switches (`Fix`): `Fix.asIs` mirrors the code before /repo e6080ab; `collapseSpaces` is the
+behaviour since that commit (fixes/C29-collapse-header-spaces.patch) — `Fix.patched` is the
+current tree; `sortDecoded` is an ideal-only variant (canonical query ordered like the Go SDK
+orders it) for which no patch is proposed.
 
 Hashes and MACs are parameters (`Crypto`); the drivers instantiate them with real SHA-256 /
 HMAC-SHA256, the theorems keep them abstract.
